@@ -531,14 +531,53 @@ pub struct StormCase {
     /// 0: everybody restores, 1: everybody creates, 2: half/half, 3: nobody calls a lifecycle function (writes create the blob),
     /// 4: no lifecycle storm; instead one fresh key is written and every client deletes it with only_if_presented = true,
     /// 5: one task cycles try_restore / try_close_active_blob over a fixed set of blobs while the clients poll blobs_count,
-    ///    records_count and check_filters, all of which are invariant under that cycle
+    ///    records_count and check_filters, all of which are invariant under that cycle,
+    /// 6: every client writes 40 + rounds fresh keys in a row while one task switches the active blob continuously
     pub kind: u8,
     pub preload_blobs: u8,
 }
 
 pub fn storm_strategy() -> BoxedStrategy<StormCase> {
-    let cfg = (prop::sample::select(&[8usize, 33][..]), prop_oneof![Just(2usize), Just(8usize), Just(8usize)], prop::bool::weighted(0.3)).prop_map(|(keylen, rt_workers, bloom)| Cfg { keylen, rt_workers, bloom: if bloom { Bloom::Tiny } else { Bloom::None }, allow_dup: true, defer_ms: (2, 5), ..Cfg::default() });
-    (cfg, 40u16..140, prop_oneof![Just(4u8), Just(8), Just(16), Just(32)], 0u8..6, 1u8..5).prop_map(|(cfg, rounds, tasks, kind, preload_blobs)| StormCase { cfg, rounds, tasks, kind, preload_blobs }).boxed()
+    let cfg = (prop::sample::select(&[8usize, 33][..]), prop_oneof![Just(2usize), Just(8usize), Just(8usize)], prop::bool::weighted(0.3), any::<bool>()).prop_map(|(keylen, rt_workers, bloom, allow_dup)| Cfg { keylen, rt_workers, bloom: if bloom { Bloom::Tiny } else { Bloom::None }, allow_dup, defer_ms: (2, 5), ..Cfg::default() });
+    (cfg, 40u16..140, prop_oneof![Just(4u8), Just(8), Just(16), Just(32)], 0u8..7, 1u8..5).prop_map(|(cfg, rounds, tasks, kind, preload_blobs)| StormCase { cfg, rounds, tasks, kind, preload_blobs }).boxed()
+}
+
+/// Awaits client tasks while watching for a dead-lock: no task finishes AND every counter of the storage's background
+/// machinery (messages sent / received / processed, maintenance tasks running, senders and lock waiters) stands still at every
+/// 50 ms sample for 20 s, although calls are outstanding. Operations here take micro- to milliseconds; the window is four orders of magnitude above that, and any
+/// background activity re-starts it. A mere overrun of 240 s without that witness ends the run as inconclusive.
+async fn join_watch<T>(hs: Vec<tokio::task::JoinHandle<T>>, s: &dyn Sut, what: &str) -> Result<Vec<std::result::Result<T, tokio::task::JoinError>>, Failure> {
+    let started = std::time::Instant::now();
+    let mut since = started;
+    let mut last_fin = usize::MAX;
+    let mut last_st = s.bg();
+    loop {
+        let fin = hs.iter().filter(|h| h.is_finished()).count();
+        if fin == hs.len() {
+            break;
+        }
+        let st = s.bg();
+        // any movement - a call finishing, a message sent / received / processed, a maintenance task starting or ending,
+        // somebody entering or leaving a wait - re-starts the window (a worker stuck in the same dead-lock moves nothing either)
+        if fin != last_fin || st != last_st {
+            last_fin = fin;
+            last_st = st.clone();
+            since = std::time::Instant::now();
+        }
+        if since.elapsed() > Duration::from_secs(20) {
+            return Err(Failure { clause: "conc/deadlock-no-activity".into(), detail: format!("{}: {} of {} client calls outstanding, none finished for 20 s and no counter of the background machinery moved at any sample ({:?})", what, hs.len() - fin, hs.len(), st), step: 0, op: String::new() });
+        }
+        if started.elapsed() > Duration::from_secs(240) {
+            println!("INCONCLUSIVE property=C08 clients did not finish within 240 s (no deadlock witness)");
+            std::process::exit(2);
+        }
+        tokio::time::sleep(Duration::from_millis(50)).await;
+    }
+    let mut out = Vec::with_capacity(hs.len());
+    for h in hs {
+        out.push(h.await);
+    }
+    Ok(out)
 }
 
 fn storm_key(keylen: usize, n: u32) -> Vec<u8> {
@@ -621,8 +660,8 @@ pub fn run_storm(c: &StormCase, dir: &Path, _findings: &Findings) -> Result<Case
                 stats.steps += 1;
             }
             stop.store(true, SeqCst);
-            for h in hs {
-                match h.await {
+            for h in join_watch(hs, &**s, "lifecycle storm").await? {
+                match h {
                     Ok(Ok(p)) => stats.queries += 3 * p,
                     Ok(Err(e)) => {
                         let (clause, detail) = e.split_once(": ").unwrap_or(("conc/storm/poll", e.as_str()));
@@ -633,7 +672,83 @@ pub fn run_storm(c: &StormCase, dir: &Path, _findings: &Findings) -> Result<Case
             }
             labels.insert("invariant_poll_storm".to_string());
         }
-        for round in 0..(if c.kind == 5 { 0 } else { c.rounds }) {
+        if c.kind == 6 {
+            // continuous writers of fresh keys (each write of the duplicate-refusing mode looks the key up first) while one
+            // task switches the active blob all the time: every call finishes, every acknowledged key is there afterwards
+            let per_task = 40 + c.rounds as u32;
+            let base = next_key;
+            let stop = Arc::new(AtomicBool::new(false));
+            let mut hs = vec![];
+            for t in 0..c.tasks as u32 {
+                let s = s.clone();
+                hs.push(tokio::spawn(async move {
+                    let mut mine = vec![];
+                    for i in 0..per_task {
+                        let k = base + t * per_task + i;
+                        // a write that finds the active blob closed under it reports ActiveBlobNotSet (nothing is stored,
+                        // nothing acknowledged): the client simply tries again
+                        let mut tries = 0u32;
+                        loop {
+                            match s.write(&storm_key(keylen, k), Bytes::from(value_for(k as u64, t as u16, 24)), 1, None).await {
+                                Ok(()) => {
+                                    mine.push(k);
+                                    break;
+                                }
+                                Err(e) if format!("{:#}", e).contains("ActiveBlobNotSet") && tries < 10_000 => {
+                                    tries += 1;
+                                    tokio::task::yield_now().await;
+                                }
+                                Err(e) => return Err(format!("write of key {} failed: {:#}", k, e)),
+                            }
+                        }
+                        if i % 8 == 7 {
+                            tokio::task::yield_now().await;
+                        }
+                    }
+                    Ok(mine)
+                }));
+            }
+            let cycler = {
+                let s = s.clone();
+                let stop = stop.clone();
+                tokio::spawn(async move {
+                    let mut n = 0u64;
+                    // (throttled and bounded: an unthrottled switcher starves the writers and litters the directory with blobs)
+                    while !stop.load(SeqCst) && n < 400 {
+                        let _ = s.try_close_active().await;
+                        let _ = s.try_create_active().await;
+                        n += 1;
+                        tokio::time::sleep(Duration::from_micros(300)).await;
+                    }
+                    n
+                })
+            };
+            let res = join_watch(hs, &**s, "writers during continuous blob switches").await;
+            stop.store(true, SeqCst);
+            let res = res?;
+            for r in res {
+                match r {
+                    Ok(Ok(mine)) => {
+                        stats.writes += mine.len() as u64;
+                        acked.extend(mine);
+                    }
+                    Ok(Err(e)) => return fail("conc/storm/write-err", e),
+                    Err(e) => return fail("panic", format!("client task: {}", e)),
+                }
+            }
+            for r in join_watch(vec![cycler], &**s, "blob switch task").await? {
+                if let Ok(n) = r {
+                    stats.steps += n;
+                }
+            }
+            next_key = base + c.tasks as u32 * per_task;
+            let _ = next_key;
+            if !s.has_active().await {
+                let _ = s.try_create_active().await;
+            }
+            labels.insert("writers_during_switch_storm".to_string());
+        }
+        for round in 0..(if c.kind >= 5 { 0 } else { c.rounds }) {
             stats.steps += 1;
             if c.kind == 4 {
                 // conditional-delete storm: one live record in the active blob, every client deletes it "only if presented":
@@ -654,8 +769,8 @@ pub fn run_storm(c: &StormCase, dir: &Path, _findings: &Findings) -> Result<Case
                     }));
                 }
                 let mut marked = 0u64;
-                for h in hs {
-                    match h.await {
+                for h in join_watch(hs, &**s, "lifecycle storm").await? {
+                    match h {
                         Ok(Ok(n)) => marked += n,
                         Ok(Err(e)) => return fail("conc/storm/delete-err", format!("round {}: {}", round, e)),
                         Err(e) => return fail("panic", format!("client task: {}", e)),
@@ -705,8 +820,8 @@ pub fn run_storm(c: &StormCase, dir: &Path, _findings: &Findings) -> Result<Case
                 }));
             }
             let mut restored_this_round = 0;
-            for h in hs {
-                match h.await {
+            for h in join_watch(hs, &**s, "lifecycle storm").await? {
+                match h {
                     Ok((k, Ok(()), restored)) => {
                         acked.push(k);
                         stats.writes += 1;
